@@ -449,6 +449,57 @@ def run(facts, tier):
         t7.missing_anchor(f"reader bodies (found {nbodies})")
     rules.append(t7.finish())
 
+    # ---------------- T14.8 CBOR negative integers are written as -1-n
+    t8 = Rule("T14.8", "CBOR: a negative integer -1-n is written with argument n: every `Header::Negative(x)` the encoder builds has an x that comes out of an adjustment by one "
+              "(add/subtract 1, bitwise not) of the magnitude, as the decoder's `!n` undoes (writing the magnitude itself is off by one)", floor=1)
+
+    def adjusts(b):
+        """locals that hold the result of an adjustment by one"""
+        out = set()
+        for bb_ in b.bbs:
+            for s_ in bb_["st"]:
+                if s_.get("k") != "A":
+                    continue
+                r_ = s_["r"]
+                if r_.get("k") == "Bin" and re.sub("WithOverflow|Unchecked", "", r_["op"]) in ("Add", "Sub") and any((o_.get("k") or {}).get("v") == 1 for o_ in (r_["a"], r_["b"])):
+                    out.add(s_["p"]["l"])
+                if r_.get("k") == "Un" and r_["op"] == "Not":
+                    out.add(s_["p"]["l"])
+                if r_.get("k") == "Bin" and r_["op"] == "BitXor":
+                    out.add(s_["p"]["l"])
+        for i_, t_ in b.calls():
+            if re.search(r"::(checked|wrapping|saturating|overflowing)_(add|sub)$", t_.get("fn") or "") and any((a_.get("k") or {}).get("v") == 1 for a_ in t_["args"]):
+                out.add(t_["d"]["l"])
+        return out
+    enc = [j for j in facts.mir("jaq_fmts") if re.match(r"^jaq_fmts::write::cbor::", j["def"]) and not j.get("test")]
+    adjusting_closures = set()
+    for j in enc:
+        b_ = Body(j)
+        if "{closure" in j["def"] and 0 in b_.derived_from(adjusts(b_)):
+            adjusting_closures.add(j["def"])
+    nneg = 0
+    for j in enc:
+        b_ = Body(j)
+        adj = adjusts(b_)
+        # results of calls of an adjusting closure of the same function
+        clos_locals = {s_["p"]["l"] for bb_ in b_.bbs for s_ in bb_["st"] if s_.get("k") == "A" and s_["r"].get("k") == "Agg" and (s_["r"].get("ak") or "")[len("Closure:"):] in adjusting_closures}
+        for i_, t_ in b_.calls():
+            if re.search(r"core::ops::function::Fn(Once|Mut)?::call", t_.get("fn") or "") and set(b_.ref_roots(b_.arg_locals(i_, 0))) & clos_locals:
+                adj.add(t_["d"]["l"])
+        good = b_.derived_from(adj)
+        for bb_ in b_.bbs:
+            for s_ in bb_["st"]:
+                if s_.get("k") == "A" and s_["r"].get("k") == "Agg" and s_["r"].get("variant") == "Negative" and "Header" in (s_["r"].get("ak") or ""):
+                    nneg += 1
+                    x_ = op_local(s_["r"]["ops"][0])
+                    ok = x_ in good
+                    t8.examined(("negative", s_.get("sp")), True, {"negative_header_argument_adjusted_by_one": ok})
+                    if not ok:
+                        t8.violate("negative-argument", "the CBOR encoder builds `Header::Negative(x)` from a value that was not adjusted by one: -1-n must be written with argument n, the magnitude itself reads back one too small", where=s_.get("sp"))
+    if not nneg:
+        t8.missing_anchor("construction of Header::Negative in the CBOR encoder")
+    rules.append(t8.finish())
+
     explanation = ("Full round trips for all values are value-level and not decided (known gaps found by reading are listed in DESIGN.md D8). Decided: the first-party reader and writer tables agree "
                    "(TSV and CSV escapes are mutual inverses, CBOR kinds, XML keys, YAML special literals, domain errors), extracted from the typed HIR.")
     return finish("C14", "other", rules, t0, tier, explanation, ["third-party lexers/encoders (saphyr, xmlparser, ciborium, toml-span) implement their formats"])
